@@ -453,6 +453,290 @@ def tie_defs(ctx, res, R, strings, deflists, name):
               "" if not mism else "%d of %d ops differ; first: %s impl=[%s] model=[%s]" % (len(mism), len(ops), ops[mism[0]], impl[mism[0]], model[mism[0]]))
 
 
+
+# ---- import level: whole compile_commands.json documents ---------------------------------------------------
+
+DIRS_ABS = ["/home/u/proj/build", "/tmp/b", "/srv/w/out/", "/opt/x", "/home/u/my proj/b", "/var/lib/é"]
+FILES_REL = ["src/a.c", "a.cpp", "../src/b.cc", "./x.cxx", "-Dfoo.c", "-I.cpp", "m/n/o.C", "t.u.c++", "a b.c", "é.cpp", "UP.CPP", "k.cl"]
+FILES_REJECTED = ["a.h", "a.txt", "README", "x.hpp", "y.o", "noext/", "a.c.bak", "A.H"]
+
+
+def expected_path(directory, f):
+    d = directory if directory.endswith("/") else directory + "/"
+    return posixpath.normpath(f if f.startswith("/") else d + f)
+
+
+def expected_incs(directory, dirs):
+    d0 = directory if directory.endswith("/") else directory + "/"
+    out, seen = [], set()
+    for x in dirs:
+        if x in seen:
+            continue
+        seen.add(x)
+        if x.startswith("/"):
+            out.append(x if x.endswith("/") else x + "/")
+        else:
+            out.append(posixpath.normpath(d0 + x) + "/")
+    return out
+
+
+def plain_for_intended(directory, opts):
+    """P_impl at import level is evaluated where the intended value needs no path algebra beyond normpath"""
+    if "\\" in directory or not directory.startswith("/"):
+        return False
+    for o in opts:
+        if o[0] == "I":
+            d = o[1]
+            if not d or "\\" in d or "$(" in d or d.startswith("%(") or "//" in d or d.startswith("..") or "/../.." in d:
+                return False
+    return True
+
+
+def gen_doc(rng):
+    """one compile_commands.json document: list of entry dicts with the structured options kept aside"""
+    n = rng.choice([1, 1, 2, 3, 4])
+    entries = []
+    pool = []
+    for _ in range(n):
+        directory = rng.choice(DIRS_ABS)
+        r = rng.random()
+        if pool and r < 0.25:
+            f = rng.choice(pool)                       # repeated file
+        elif r < 0.6:
+            f = rng.choice(FILES_REL)
+        elif r < 0.85:
+            f = rng.choice(ROOTS) + "/" + rng.choice(["a.c", "src/b.cpp", "x y.cc"])
+        elif r < 0.95:
+            f = rng.choice(FILES_REJECTED)
+        else:
+            f = None
+        if f is not None:
+            pool.append(f)
+        opts = gen_opts(rng, n=rng.choice([1, 2, 3, 5, 8]))
+        opts = [o for o in opts if not (o[0] == "pos" and o[1].endswith(tuple(EXTS)))]
+        if f is not None:
+            opts.append(("pos", ("./" + f) if f.startswith("-") else f))
+        form = rng.choice(["A", "A", "C", "C", "C"])
+        entries.append(dict(directory=directory, file=f, opts=opts, form=form))
+    return entries
+
+
+def doc_to_json_and_model(rng, entries):
+    doc, toks = [], []
+    for e in entries:
+        args = [a for a in render(e["opts"])]
+        obj = {"directory": e["directory"]}
+        if e["file"] is not None:
+            obj["file"] = e["file"]
+        toks += [hx(enc(e["directory"], "utf-8")), hx(enc(e["file"], "utf-8")) if e["file"] is not None else "!"]
+        if e["form"] == "A":
+            jargs = list(args)
+            if rng.random() < 0.1:
+                jargs.insert(rng.randrange(len(jargs) + 1), rng.choice([1, None, True, ["x"]]))   # non-strings are skipped
+            obj["arguments"] = jargs
+            toks += ["A", str(len(args))] + [hx(enc(a, "utf-8")) for a in args]
+        else:
+            args = [a for a in args if a]
+            cmd = quote_cmd(gen_styles(rng, args))
+            obj["command"] = cmd
+            toks += ["C", hx(enc(cmd, "utf-8"))]
+        e["args"] = args
+        doc.append(obj)
+    text = json.dumps(doc, ensure_ascii=rng.random() < 0.5, indent=rng.choice([None, 1]))
+    return text, "import " + " ".join(toks)
+
+
+def intended_entry_lines(entries):
+    """(line, in_premise) per accepted entry, in order"""
+    out, ids = [], {}
+    for e in entries:
+        f = e["file"]
+        if f is None or not accept_file(f):
+            continue
+        path = expected_path(e["directory"], f)
+        k = ids.get(path, 0)
+        ids[path] = k + 1
+        it = intended(e["opts"], "utf-8")
+        incs = [o[1] for o in e["opts"] if o[0] == "I"]
+        ok = opts_in_premise(e["opts"]) and plain_for_intended(e["directory"], e["opts"])
+        it["I"] = [enc(x, "utf-8") for x in expected_incs(e["directory"], incs)] if ok else []
+        out.append(("P %s id %d | %s" % (hx(enc(path, "utf-8")), k, fs_line(it)), ok, e))
+    return out
+
+
+def accept_file(f):
+    i = f.rfind(".")
+    if i < 0:
+        return False
+    e = f[i:]
+    if e == ".C" or e in (".c", ".cl"):
+        return True
+    return "".join(chr(ord(c) + 32) if "A" <= c <= "Z" else c for c in e) in (".cpp", ".cxx", ".cc", ".c++", ".tpp", ".txx", ".ipp", ".ixx")
+
+
+def tie_import(ctx, res, R, docs, name):
+    rng = ctx.rng
+    hops, mops, keep = [], [], []
+    for entries in docs:
+        text, mop = doc_to_json_and_model(rng, entries)
+        if any(ends_bare(e["args"]) for e in entries):
+            res.count("doc-skipped-ends-in-bare-option")
+            continue
+        hops.append("json " + hx(text.encode("utf-8")))
+        mops.append(mop)
+        keep.append((entries, text))
+    impl, model = R.both(hops, mops)
+    mism, fails = [], []
+    for i, ((entries, text), il, ml) in enumerate(zip(keep, impl, model)):
+        samp = dict(tie=name, op=text[:300], impl=il[:300], model=ml[:300]) if i % max(1, len(keep) // 2) == 0 else None
+        res.case(name + "|" + text, True, samp)
+        for e in entries:
+            res.count("form:" + e["form"])
+        if il != ml:
+            mism.append(i)
+        parts = il.split(" || ")
+        want = intended_entry_lines(entries)
+        if not parts[0].startswith("rc 1"):
+            res.violation("importCompileCommands rejects a well-formed database: %s -> %s" % (text[:300], il[:200]),
+                          dict(kind="json", json=text, got=il), concrete=True, key=None)
+            continue
+        if len(parts) - 1 != len(want):
+            res.violation("importCompileCommands yields %d file settings, the database names %d accepted files: %s" % (len(parts) - 1, len(want), text[:300]),
+                          dict(kind="json", json=text, got=il), concrete=True, key=None)
+            continue
+        for got, (w, ok, e) in zip(parts[1:], want):
+            if ok and got != w:
+                fails.append((e, got, w, text))
+    # classify entry-level failures through the argument vector of the entry (paths of -I are rewritten by the import, so
+    # the class test compares only the non-include part when neutralising)
+    cand, cops = [], []
+    for j, (e, got, w, text) in enumerate(fails):
+        nargs = neutralise(e["args"])
+        if nargs != e["args"] and not ends_bare(nargs):
+            obj = {"directory": e["directory"], "file": e["file"], "arguments": nargs}
+            cand.append(j)
+            cops.append("json " + hx(json.dumps([obj]).encode("utf-8")))
+    cout = R.impl(cops) if cops else []
+    keys = [None] * len(fails)
+    for j, o in zip(cand, cout):
+        g2 = o.split(" || ")
+        w0 = re.sub(r" id \d+ ", " id 0 ", fails[j][2])
+        if len(g2) == 2 and g2[1] == w0:
+            keys[j] = "slash-prefixed-path-arg"
+    for (e, got, w, text), key in zip(fails, keys):
+        res.count("P_impl-import-fail:" + str(key))
+        res.violation("import recovers other options than the entry specifies: entry=%s got=[%s] specified=[%s]" %
+                      (json.dumps(dict(directory=e["directory"], file=e["file"], arguments=e["args"])), got, w),
+                      dict(kind="json", json=text, got=got, specified=w), concrete=True, key=key)
+    res.traces_validated += len(keep) - len(mism)
+    res.oblig("correspondence:" + name, not mism, "correspondence",
+              "" if not mism else "%d of %d documents differ; first: %s impl=[%s] model=[%s]" % (len(mism), len(keep), keep[mism[0]][1][:400], impl[mism[0]][:400], model[mism[0]][:400]))
+
+
+def gen_path_string(rng):
+    parts = ["a", "b", "..", ".", "", "x.y", "..a", "a..", "...", "c d"]
+    n = rng.choice([1, 2, 3, 4, 6])
+    s = rng.choice(["", "", "/", "//", "./", "../", "C:/", "\\"]) + rng.choice(["/", "/", "/", "\\", "//"]).join(rng.choice(parts) for _ in range(n))
+    return s + rng.choice(["", "", "/", "/.", "/.."])
+
+
+def tie_paths(ctx, res, R, n, name):
+    rng = ctx.rng
+    ops = ["simplify " + hx(enc(gen_path_string(rng), "latin-1")) for _ in range(n)]
+    for _ in range(n // 2):
+        base = rng.choice(DIRS_ABS + ["rel/base/", ""])
+        base = base if base.endswith("/") or not base else base + "/"
+        ins = [rng.choice(DIRS_REL + ["/abs", "/abs/", "C:/x", "C:\\y", "%(Inherit)", "$(C32_UNSET_VAR)/i", "a/$(C32_UNSET_VAR", "", "inc", "inc\\sub", gen_path_string(rng)])
+               for _ in range(rng.choice([0, 1, 2, 3, 5]))]
+        ops.append(("incs " + hx(enc(base, "latin-1")) + " " + " ".join(hx(enc(x, "latin-1")) for x in ins)).strip())
+    impl, model = R.both(ops)
+    mism = [i for i in range(len(ops)) if impl[i] != model[i]]
+    for i, op in enumerate(ops):
+        res.case(name + "|" + op, True, dict(tie=name, op=op, impl=impl[i], model=model[i]) if i % max(1, len(ops) // 2) == 0 else None)
+    res.traces_validated += len(ops) - len(mism)
+    res.oblig("correspondence:" + name, not mism, "correspondence",
+              "" if not mism else "%d of %d ops differ; first: %s (%s) impl=[%s] model=[%s]" %
+              (len(mism), len(ops), ops[mism[0]], [core.unhx(x) for x in ops[mism[0]].split(" ")[1:]], impl[mism[0]], model[mism[0]]))
+
+
+
+# ---- CLI tie (thorough): the built cppcheck binary prints the imported options with -v ----------------------------
+
+def tie_cli(ctx, res, R, ndocs, name):
+    import subprocess
+    rng = ctx.rng
+    exe = ctx.cppcheck
+    bad, fails, ran = [], [], 0
+    for k in range(ndocs):
+        root = os.path.join(ctx.tmp, "cli%d" % k)
+        bdir = os.path.join(root, "build")
+        os.makedirs(bdir, exist_ok=True)
+        entries = []
+        for j in range(rng.choice([1, 2, 3])):
+            rel = rng.choice(["../src/a%d.c" % j, "m%d.cpp" % j, "../src/x y%d.cc" % j, "./-Dfoo%d.c" % j])
+            absf = os.path.normpath(os.path.join(bdir, rel))
+            f = rel if rng.random() < 0.5 else absf
+            if f.startswith("./"):
+                f = f[2:] if rng.random() < 0.5 else f
+            os.makedirs(os.path.dirname(absf), exist_ok=True)
+            open(absf, "w").write("int x%d;\n" % j)
+            opts = gen_opts(rng, n=rng.choice([2, 4, 6]))
+            opts = [o for o in opts if not (o[0] == "pos" and o[1].endswith(tuple(EXTS)))]
+            opts.append(("pos", ("./" + f) if f.startswith("-") else f))
+            entries.append(dict(directory=bdir + rng.choice(["", "/"]), file=f, opts=opts, form=rng.choice(["A", "C"])))
+        text, _ = doc_to_json_and_model(rng, entries)
+        if any(ends_bare(e["args"]) for e in entries):
+            continue
+        pj = os.path.join(root, "compile_commands.json")
+        open(pj, "w", encoding="utf-8").write(text)
+        r = subprocess.run([exe, "--project=" + pj, "-v", "-j1", "--template={id}"], cwd=root, stdout=subprocess.PIPE, stderr=subprocess.PIPE, timeout=120)
+        lines = r.stdout.split(b"\n")
+        cli = []
+        for i, l in enumerate(lines):
+            if l.startswith(b"Defines:") and i + 2 < len(lines) and lines[i + 1].startswith(b"Undefines:") and lines[i + 2].startswith(b"Includes:"):
+                cli.append((l, lines[i + 1], lines[i + 2]))
+        il = R.impl(["json " + hx(text.encode("utf-8"))])[0]
+        inproc = []
+        for part in il.split(" || ")[1:]:
+            m = re.match(r"^P (\S+) id (\d+) \| I (\S+) \| S (\S+) \| D (\S+) \| U (\S+) \| T (\S+)$", part)
+            unl = lambda x: [] if x == "." else [core.unhx(y) for y in x.split(",")]
+            inproc.append((b"Defines:" + core.unhx(m.group(5)), b"Undefines:" + b";".join(b" " + u for u in unl(m.group(6))),
+                           b"Includes:" + b"".join(b" -I" + p for p in unl(m.group(3)))))
+        ran += 1
+        res.case(name + "|" + text, True, dict(tie=name, op=text[:200], impl=repr(cli)[:300], model=repr(inproc)[:300]) if k % max(1, ndocs // 2) == 0 else None)
+        if cli != inproc:
+            bad.append((text, cli, inproc))
+        want = intended_entry_lines(entries)
+        if len(want) == len(cli):
+            for (w, ok, e), c in zip(want, cli):
+                m = re.match(r"^P (\S+) id (\d+) \| I (\S+) \| S (\S+) \| D (\S+) \| U (\S+) \| T (\S+)$", w)
+                unl = lambda x: [] if x == "." else [core.unhx(y) for y in x.split(",")]
+                wl = (b"Defines:" + core.unhx(m.group(5)), b"Undefines:" + b";".join(b" " + u for u in unl(m.group(6))),
+                      b"Includes:" + b"".join(b" -I" + p for p in unl(m.group(3))))
+                if ok and c != wl:
+                    key = "slash-prefixed-path-arg" if any(a.startswith(SLASH) for a in neutralise(e["args"]) if False) else None
+                    fails.append((e, c, wl, text))
+    # classify CLI P_impl failures with the in-process classifier on the entry's vector
+    for e, c, wl, text in fails:
+        nargs = neutralise(e["args"])
+        key = None
+        if nargs != e["args"] and not ends_bare(nargs):
+            want1 = fs_line(intended(e["opts"], "utf-8"))
+            got1 = R.impl([parse_op(nargs, "utf-8")])[0]
+            # the include paths of `want1` are raw, those of the vector too: compare on the vector level
+            if got1 == want1:
+                key = "slash-prefixed-path-arg"
+        res.count("P_impl-cli-fail:" + str(key))
+        res.violation("cppcheck -v prints other options than the entry specifies: entry=%s printed=%s specified=%s" %
+                      (json.dumps(dict(directory=e["directory"], file=e["file"], arguments=e["args"])), c, wl),
+                      dict(kind="json", json=text, got=repr(c), specified_cli=repr(wl)), concrete=True, key=key)
+    res.extra["cli_runs"] = ran
+    res.traces_validated += ran - len(bad)
+    res.oblig("correspondence:" + name, not bad and ran > 0, "correspondence",
+              "" if not bad else "%d of %d databases: `cppcheck --project -v` and the in-process import differ; first: %s cli=%s inproc=%s" %
+              (len(bad), ran, bad[0][0][:300], bad[0][1], bad[0][2]))
+
+
 def load_corpus():
     p = os.path.join(core.VERIF, "corpus", "C32", "cases.json")
     return json.load(open(p)) if os.path.exists(p) else []
@@ -478,13 +762,23 @@ def replay_corpus(ctx, res, R):
 
 
 def run(ctx, res):
+    import time
     rng = ctx.rng
     thorough = ctx.tier == "thorough"
+    tm = {}
+    t = time.time()
+
+    def lap(k):
+        nonlocal t
+        tm[k] = round(time.time() - t, 1)
+        t = time.time()
     core.prove(ctx, res, MODULES, THEOREMS)
+    lap("prove")
     R = Runner(ctx)
+    lap("driver+harness build")
     replay_corpus(ctx, res, R)
 
-    n = 4000 if thorough else 500
+    n = 4000 if thorough else 400
     structured = []
     for _ in range(n):
         opts = gen_opts(rng)
@@ -492,6 +786,7 @@ def run(ctx, res):
     hostile = [(gen_hostile_args(rng), None) for _ in range(n)]
     tie_parse(ctx, res, R, structured, "parseArgs-structured")
     tie_parse(ctx, res, R, hostile, "parseArgs-hostile")
+    lap("parse")
 
     items_list = []
     for args, opts in structured[: n // 2]:
@@ -499,10 +794,53 @@ def run(ctx, res):
         items_list.append(gen_styles(rng, args))
     raws = [gen_raw_cmd(rng) for _ in range(n)]
     tie_split(ctx, res, R, items_list, raws, "collectArgs")
+    lap("split")
 
     strings = [gen_defs_string(rng) for _ in range(n)]
     deflists = [[gen_define(rng) for _ in range(rng.choice([0, 1, 2, 3, 5]))] for _ in range(n // 2)]
     tie_defs(ctx, res, R, strings, deflists, "fsSetDefines")
+    lap("defs")
+
+    tie_paths(ctx, res, R, n, "simplifyPath+fsSetIncludePaths")
+    lap("paths")
+    docs = [gen_doc(rng) for _ in range(n // 2)]
+    tie_import(ctx, res, R, docs, "importCompileCommands")
+    lap("import")
+    if thorough:
+        tie_cli(ctx, res, R, 150, "cli-verbose-lines")
+        lap("cli")
+    res.extra["phase_s"] = tm
+
+    # ---- violation search: an obligation broke and no concrete failing input is known yet ------------------------
+    if any(not o["ok"] for o in res.obligations) and not any(v["concrete"] and v.get("key") is None for v in res.violations):
+        search(ctx, res, R)
+        lap("search")
+
+
+def search(ctx, res, R):
+    """P_impl on the real code over a much wider sample (theorem hypotheses satisfied: no slash-prefixed paths), so that a
+    change that broke a theorem / the correspondence is reported with a concrete command line whenever one is reachable"""
+    rng = ctx.rng
+    res2 = core.Result(ctx, res.level)
+    n = 6000
+    structured = []
+    for _ in range(n):
+        opts = gen_opts(rng, hostile_paths=False)
+        structured.append((render(opts), opts))
+    try:
+        tie_parse(ctx, res2, R, structured, "search-parse")
+        items_list = [gen_styles(rng, [a for a in args if a]) for args, _ in structured[:3000]]
+        tie_split(ctx, res2, R, items_list, [], "search-split")
+        tie_defs(ctx, res2, R, [], [[gen_define(rng) for _ in range(rng.choice([1, 2, 3, 5]))] for _ in range(2000)], "search-defs")
+        tie_import(ctx, res2, R, [gen_doc(rng) for _ in range(1500)], "search-import")
+    except core.CheckBroken as ex:
+        res.notes.append("search aborted: %s" % ex)
+    res.extra["search_cases"] = res2.evaluations
+    for v in res2.violations:
+        if v["concrete"] and v.get("key") is None:
+            res.violations.append(dict(v, what="search: " + v["what"]))
+            if sum(1 for x in res.violations if x.get("key") is None) > 10:
+                break
 
 
 def replay(ctx, res, rp):
@@ -520,6 +858,14 @@ def replay(ctx, res, rp):
         got = R.impl(["defs " + hx(enc("".join(d + ";" for d in rp["defs"]), "latin-1"))])[0]
         print("defs : %s\ngot  : %s\nwant : %s" % (rp["defs"], got, rp["want"]))
         bad = int(got != rp["want"])
+    elif rp.get("kind") == "json":
+        got = R.impl(["json " + hx(rp["json"].encode("utf-8"))])[0]
+        print("json      : %s\nimport    : %s" % (rp["json"], got))
+        if "specified" in rp:
+            print("specified : %s" % rp["specified"])
+            bad = int(rp["specified"] not in got.split(" || "))
+        else:
+            bad = int(got == rp.get("got"))
     else:
         print("replay: nothing to replay in this file (no concrete input)")
     if bad:
